@@ -11,6 +11,18 @@ open Proto C02
 def optNat? (s : String) : Option (Option Nat) :=
   if s = "_" then some none else s.toNat?.map some
 
+/-- a date attribute: `_` | nat | nat@<how>. `<how>` (`u`, `+hhmm`, `-hhmm`) only tells the harness through
+which builder twin and in which textual form (UTC offset) the SAME abstract instant is handed to the rule; the
+model sees the instant. -/
+def optDate? (s : String) : Option (Option Nat) :=
+  match s.splitOn "@" with
+  | [a] => optNat? a
+  | [a, h] =>
+    let okHow := h = "u" ||
+      ((h.startsWith "+" || h.startsWith "-") && h.length = 5 && (h.drop 1).toString.toList.all Char.isDigit)
+    if okHow then a.toNat?.map some else none
+  | _ => none
+
 def parseCond? (s : String) : Option Cond :=
   match s.splitOn "." with
   | [k, f, v] => do
@@ -36,8 +48,8 @@ def parseRule? (s : String) : Option Rule :=
     let fl ← fl.toNat?
     let ag ← optNat? ag
     let actg ← optNat? actg
-    let eff ← optNat? eff
-    let exp ← optNat? exp
+    let eff ← optDate? eff
+    let exp ← optDate? exp
     let c ← parseCond? c
     let acts ← if acts = "-" then some [] else (acts.splitOn "/").mapM parseAct?
     pure { name := n, salience := sal, enabled := fl % 2 = 1, noLoop := (fl / 2) % 2 = 1, lock := (fl / 4) % 2 = 1,
